@@ -31,7 +31,9 @@ CHECK_DEADLOCK FALSE
 
 NAMES = ["My Spa", "a|b", "|", "caf\xe9 b\xf6b's", "x", "", "Spa||2|", "\xff\xfe name", "Udp Test Spa",
          # names whose first / last character is whitespace to str.strip (incl. latin-1 NBSP, NEL, FS..US)
-         " padded ", "nbsp\xa0", "\x85nel", "tab\t", "\x1cfs us\x1f", " Hot|Tub|2 "]
+         " padded ", "nbsp\xa0", "\x85nel", "tab\t", "\x1cfs us\x1f", " Hot|Tub|2 ",
+         # names made of / ending in the characters of the framing tags themselves
+         "POOL", "HELLO", "CASA DEL SOL", "Spa <3>", "a/", "<HELLO>", "O"]
 
 
 class Responder:
@@ -52,6 +54,50 @@ class Responder:
 
 def _ms(t):
     return int(round(t * 1000))
+
+
+def cancelled_run(rng, cancel_at, n_spas):
+    """a discovery run that is CANCELLED while it waits (the way a caller's deadline or a manager's shutdown ends it):
+    when the call has ended, its endpoint is closed, nothing it started is alive and nothing is listed afterwards"""
+    from geckolib.async_locator import GeckoAsyncLocator
+    from geckolib.async_tasks import AsyncTasks
+    resp = [Responder(f"s{i}", f"SPA0{i}:01:02:03:04:05".encode(), f"spa {i}", (f"10.0.1.{i + 1}", 10022),
+                      (lambda L: (lambda n: [L] if n == 0 else []))(0.02 + 0.01 * i)) for i in range(n_spas)]
+    net = Network(resp, latency=0.0)
+    with World(net, rank=rng.choice(["stable", "reverse", "perm"]), rng=rng.random()) as w:
+        loop = w.loop
+        late = []
+
+        async def handler(event, **kwargs):
+            if event.name == "LOCATING_DISCOVERED_SPA":
+                late.append(loop.time())
+
+        async def main():
+            tm = AsyncTasks()
+            await tm.__aenter__()
+            try:
+                loc = GeckoAsyncLocator(tm, handler)
+                before = set(loop.tasks)
+                t = loop.create_task(loc.discover(), name="GV:discover")
+                await asyncio.sleep(cancel_at)
+                t.cancel()
+                try:
+                    await t
+                except asyncio.CancelledError:
+                    pass
+                t_end = loop.time()
+                n_listed = len(loc.spas or [])
+                await asyncio.sleep(0)
+                await asyncio.sleep(0)
+                alive = [x.get_name() for x in loop.tasks if x not in before and not x.done() and x is not t
+                         and x is not asyncio.current_task()]
+                closed = all(tr.closed for tr in loop.transports)
+                await asyncio.sleep(3.0)
+                return {"kind": "cancelled", "cancel_at_ms": _ms(cancel_at), "spas": n_spas, "alive": alive, "closed": closed,
+                        "listed_after": len(loc.spas or []) - n_listed, "events_after": sum(1 for x in late if x > t_end + 1e-9)}
+            finally:
+                await tm.__aexit__(None)
+        return w.run(main())
 
 
 def stray_witness(stray, stray_at, reply_at):
@@ -92,6 +138,8 @@ def scenario(rng, spec):
     resp = []
     for i, (token, name, plan) in enumerate(spec["responders"]):
         ident = f"SPA{i:02}:0{i}:aa:bb:cc:{rng.randrange(10, 99)}".encode()
+        if rng.random() < 0.15:
+            ident = f"HOTEL-{i}-SPA<{rng.randrange(10, 99)}>".encode()       # identifiers are free text too
         resp.append(Responder(token, ident, name, (f"10.0.1.{i + 1}", 10022), plan))
     net = Network(resp, latency=0.0)
     ev = []
@@ -238,6 +286,12 @@ def run(ctx):
         "stray <PACKT> before the first reply": stray_witness(b"<PACKT><SRCCN>SPA</SRCCN><DESCN>IOS</DESCN><DATAS>APING</DATAS></PACKT>", 0.1, 0.3),
         "stray datagram after the first reply was consumed": stray_witness(b"junk", 1.0, 0.3),
     }
+    for cancel_at, n_spas in ((0.25, 6), (0.05, 3), (1.5, 2), (4.05, 1)) + (() if ctx.quick else tuple((0.1 * k, 5) for k in range(1, 40))):
+        cr = cancelled_run(rng, cancel_at, n_spas)
+        ev.cov.setdefault("cancelled_runs", []).append(cr)
+        if cr["alive"] or not cr["closed"] or cr["listed_after"] or cr["events_after"]:
+            ctx.violation({"clause": "helper-tasks-alive" if cr["alive"] else "endpoint-open" if not cr["closed"] else "listed-after-the-run-ended",
+                           "run": "cancelled"}, cr)
     logs = []
     n_sc = 120 if ctx.quick else 3000
     tokens = ["s1", "s2", "s3", "s4", "s5", "s6"]
